@@ -751,6 +751,12 @@ class Unsupported(Exception):
     """construct outside the verifier's subset: the obligation becomes UNDECIDED, never a violation"""
 
 
+class ShapeChanged(Unsupported):
+    """a MODULAR (P) contract relies on the shape of the code it was written for - which local variable accumulates, which callee builds the result, which container is
+    appended to. When the code no longer has that shape the modular proof does not apply: the contract is SKIPPED (reported as a note, never as a violation or an undecided
+    obligation) and the property rests on the S / B contracts of the same function, which execute whatever the code does"""
+
+
 def _var_value(v, env):
     if v.kind == "pi":
         return math.pi
